@@ -473,6 +473,18 @@ impl State {
 
     fn pick_task(&mut self) -> usize {
         let n = self.bag.len();
+        if self.lazy_workers {
+            // Lazy workers also leave detached tasks (nobody waits for them) for last: a worker
+            // takes one only when no scoped task is pending.
+            let scoped: Vec<usize> = (0..n).filter(|&i| self.bag[i].latch.is_some()).collect();
+            if !scoped.is_empty() && scoped.len() < n {
+                let k = self.decide(scoped.len(), |s| match s.strategy {
+                    Strategy::RoundRobin => 0,
+                    _ => s.rng.below(scoped.len() as u64) as usize,
+                });
+                return scoped[k];
+            }
+        }
         self.decide(n, |s| match s.strategy {
             Strategy::RoundRobin => 0,
             _ => s.rng.below(n as u64) as usize,
@@ -990,10 +1002,22 @@ fn worker_main(me: usize) {
     loop {
         let s = g.as_mut().unwrap();
         if !s.bag.is_empty() {
-            s.threads[me].st = St::Running;
-            s.threads[me].wait = Wait::None;
-            g = run_one_task(g, me);
-            continue;
+            // Lazy workers: with only detached tasks pending, behave like an idle worker for as long
+            // as some other thread can run (see `lazy_workers`).
+            let starve = s.lazy_workers
+                && s.bag.iter().all(|t| t.latch.is_none())
+                && (0..s.threads.len()).any(|t| {
+                    t != me
+                        && s.can_progress(t)
+                        && s.threads[t].stall_until <= s.step
+                        && !(s.threads[t].st == St::Blocked && matches!(s.threads[t].wait, Wait::Idle))
+                });
+            if !starve {
+                s.threads[me].st = St::Running;
+                s.threads[me].wait = Wait::None;
+                g = run_one_task(g, me);
+                continue;
+            }
         }
         s.step += 1;
         s.threads[me].st = St::Blocked;
